@@ -37,6 +37,30 @@ def penrose_residuals(A, B):
       'BA sym': np.abs(BA - BA.T).max() / max(np.abs(BA).max(), 1e-300)}
 
 
+def rank_in_noise_regime(A):
+  """The rank decision of a symmetric matrix is made against a tolerance of
+  a few ulps of its largest eigenvalue, i.e. at the noise level of the
+  eigen-solver itself.  Used only to *exclude* cases: re-evaluate the
+  spectrum with the same numerics the library uses (scipy.linalg.eigh) and
+  report whether its smallest magnitude falls in the regime where the
+  decision is rounding noise (above half the tolerance, below 1e-6)."""
+  import scipy.linalg
+  A = np.atleast_2d(np.asarray(A, dtype=float))
+  try:
+    # (with eigenvectors: LAPACK uses another driver for values only, whose
+    # rounding noise on a zero eigenvalue differs by orders of magnitude)
+    w = scipy.linalg.eigh(A, check_finite=False)[0]
+    w = np.r_[w, scipy.linalg.eigh(A, eigvals_only=True, check_finite=False)]
+  except Exception:
+    return True
+  m = np.abs(w).max()
+  if m == 0:
+    return False
+  tol_rel = A.shape[0] * EPS
+  r = np.abs(w) / m
+  return bool(np.any((0.5 * tol_rel < r) & (r < 1e-6)))
+
+
 def ambiguous_rank(w, lo=1e-13, hi=1e-6):
   """True when some eigenvalue is neither clearly zero nor clearly nonzero."""
   w = np.abs(np.asarray(w, dtype=float))
@@ -83,7 +107,9 @@ def judge_components_from_metric(j, M, tol, result, exc, mon='C20.cfm'):
             {'lambda_min': lam, 'tol_eff': tol_eff,
              'got': type(exc).__name__ if exc else 'returned'})
     return
-  if lam < 0 and lam < -tol_eff + band:
+  if abs(lam + tol_eff) < band:
+    # (also lam slightly above -tol: with tol = 0 the computed sign of a
+    # zero eigenvalue is rounding noise)
     j.skip(mon, 'eigenvalue-near-minus-tol')
     return
   # here the matrix is PSD up to tolerance: must be accepted and L^T L = M
@@ -145,7 +171,8 @@ def judge_metric_init(j, points, init, random_state, return_inverse,
               {'lambda_min': w.min(), 'got': type(exc).__name__ if exc
                else 'returned'})
       return
-    if w.min() < -0.01 * tol or ambiguous_rank(w):
+    if w.min() < -0.01 * tol or ambiguous_rank(w) or \
+            rank_in_noise_regime(A):
       j.skip(mon, 'spectrum-near-tolerance')
       return
     singular = np.abs(w).min() < tol
@@ -165,9 +192,10 @@ def judge_metric_init(j, points, init, random_state, return_inverse,
     j.check(mon + '.array-not-aliased', not np.shares_memory(M, A), {})
     if Minv is not None:
       res = penrose_residuals(A.astype(float), Minv)
+      nz = np.abs(w[np.abs(w) > tol])
+      cond = w.max() / nz.min() if nz.size else 1.0
       j.close(mon + '.inverse', max(res.values()), 0.0,
-              1e-8 * max(1.0, w.max() / max(np.abs(w[np.abs(w) > tol]).min(),
-                                            1e-300)) ** 1, res)
+              1e-8 * max(1.0, cond), res)
     return
 
   if init == 'identity':
@@ -187,7 +215,8 @@ def judge_metric_init(j, points, init, random_state, return_inverse,
       return
     C = np.atleast_2d(explicit_cov(X))
     w = np.linalg.eigvalsh(C)
-    if ambiguous_rank(w):
+    if ambiguous_rank(w) or rank_in_noise_regime(
+            np.atleast_2d(np.cov(X, rowvar=False))):
       j.skip(mon, 'covariance-ambiguous-rank')
       return
     tol = np.abs(w).max() * d * EPS
@@ -298,7 +327,14 @@ def judge_components_init(j, n_components, inp, y, init, random_state,
             {'init': repr(init)[:50]})
     return
   if exc is not None:
-    # lda with too many components etc. is the caller's problem
+    if init in ('auto', 'identity', 'random'):
+      # these options are always applicable: the selection rule must not
+      # pick something that cannot be computed
+      j.violated(mon + '.option-' + init,
+                 {'k': k, 'd': d, 'raised': type(exc).__name__,
+                  'msg': str(exc)[:200]})
+      return
+    # lda / pca with too many components is the caller's problem
     j.count(mon + '.raised.' + type(exc).__name__)
     return
   R = np.asarray(result)
